@@ -207,20 +207,36 @@ AvgPoolNum(A, q) ==
 AvgPoolNumMI(m, q) == [m EXCEPT !.dims = [j \in 1..Len(m.dims) |-> m.dims[j] \div q],
                          !.blks = Eager([i \in 1..Len(m.order) |-> [m.blks[i] EXCEPT !.val = LiftBlock(m, i, LAMBDA A : AvgPoolNum(A, q))]])]
 
-(* get_component(comp, T): blocks (c*T, spatial, tensor), one leading axis.  The fields of all types are laid side by
-   side as scalar components (type in storage order, then channel, then tensor component); the result is the single
-   scalar block (T, spatial) of component `comp`. *)
-GetComponent(m, comp, T) ==
-  LET ncomp(i) == (m.blks[i].lead[1] \div T) * Pow(m.d, m.order[i][1])
-      coff == [i \in 1..Len(m.order) |-> SumSeq([j \in 1..(i - 1) |-> ncomp(j)])]
-      i  == CHOOSE i \in 1..Len(m.order) : coff[i] <= comp /\ comp < coff[i] + ncomp(i)
+(* get_component(c0 .. c0+n-1, T): blocks (c*T, spatial, tensor), one leading axis.  The fields of all types are laid side by side
+   as scalar components (type in storage order, then channel, then tensor component); the result is the single scalar block
+   (n*T, spatial): selected component major, time minor.  An integer component is the case n = 1. *)
+CompCount(m, i, T) == (m.blks[i].lead[Len(m.blks[i].lead)] \div T) * Pow(m.d, m.order[i][1])
+CompTotal(m, T) == SumSeq([i \in 1..Len(m.order) |-> CompCount(m, i, T)])
+(* value of global component `comp` at time t, pixel x, of the sub-multi-image whose blocks start at flat offset base(i) *)
+CompVal(m, comp, t, x, T, base(_)) ==
+  LET coff == [i \in 1..Len(m.order) |-> SumSeq([j \in 1..(i - 1) |-> CompCount(m, j, T)])]
+      i  == CHOOSE i \in 1..Len(m.order) : coff[i] <= comp /\ comp < coff[i] + CompCount(m, i, T)
       nc == Pow(m.d, m.order[i][1])
       ch == (comp - coff[i]) \div nc
       cp == (comp - coff[i]) % nc
       np == ProdSeq(m.dims)
+  IN m.blks[i].val[base(i) + ((ch * T + t) * np + x) * nc + cp + 1]
+GetComponents(m, c0, n, T) ==
+  LET np == ProdSeq(m.dims) IN
+  [m EXCEPT !.order = <<<<0, 0>>>>,
+        !.blks = <<[lead |-> <<n * T>>,
+                    val |-> Eager([q \in 1..(n * T * np) |->
+                       LET j == (q - 1) \div (T * np)  t == ((q - 1) \div np) % T  x == (q - 1) % np
+                       IN CompVal(m, c0 + j, t, x, T, LAMBDA i : 0)])]>>]
+GetComponent(m, comp, T) == GetComponents(m, comp, 1, T)
+(* batch_get_component: blocks (B, c*T, spatial, tensor); every batch entry is treated as its own multi-image *)
+BatchGetComponents(m, c0, n, T) ==
+  LET np == ProdSeq(m.dims)  NB == m.blks[1].lead[1]
+      per(i) == Len(m.blks[i].val) \div NB
   IN [m EXCEPT !.order = <<<<0, 0>>>>,
-        !.blks = <<[lead |-> <<T>>,
-                    val |-> Eager([n \in 1..(T * np) |->
-                       LET t == (n - 1) \div np  x == (n - 1) % np
-                       IN m.blks[i].val[((ch * T + t) * np + x) * nc + cp + 1]])]>>]
+        !.blks = <<[lead |-> <<NB, n * T>>,
+                    val |-> Eager([q \in 1..(NB * n * T * np) |->
+                       LET b == (q - 1) \div (n * T * np)  r == (q - 1) % (n * T * np)
+                           j == r \div (T * np)  t == (r \div np) % T  x == r % np
+                       IN CompVal(m, c0 + j, t, x, T, LAMBDA i : b * per(i))])]>>]
 =============================================================================
